@@ -219,6 +219,84 @@ def run_transform(case, drv):
     return ok(**tags)
 
 
+# ----------------------------------------------------------------------------- derived objects share nothing with the CPD
+def gen_alias(rng, tier):
+    case = rand_cpd_case(rng, normalised=True)
+    if not case["parents"]:
+        return None
+    case["derive"] = rng.choice(["to_factor", "to_factor", "copy", "marginalize", "reduce", "normalize", "reorder"])
+    case["edit"] = rng.choice(["marginalize", "reduce", "maximize", "scale", "set_value", "product"])
+    case["which"] = rng.randrange(len(case["parents"]))
+    return case
+
+
+def run_alias(case, drv):
+    """an object derived from a CPD (to_factor, copy, out-of-place results) is edited IN PLACE: the CPD must not notice"""
+    import numpy as np
+    from pgmpy.factors.discrete import DiscreteFactor
+    names, card, labels = case["names"], case["card"], case["labels"]
+    pn = [gen.lab(x) for x in names]
+    cpd = mk_cpd(case)
+    m0 = model_cpd(case, drv)
+    s0 = snapshot(cpd)
+    p = case["parents"][case["which"]]
+    tags = dict(derive=case["derive"], edit=case["edit"])
+    try:
+        with np.errstate(all="ignore"):
+            d = case["derive"]
+            if d == "to_factor":
+                obj = cpd.to_factor()
+            elif d == "copy":
+                obj = cpd.copy()
+            elif d == "marginalize":
+                others = [q for q in case["parents"] if q != p]
+                if not others:
+                    return skip("one parent only")
+                obj = cpd.marginalize([pn[others[0]]], inplace=False)
+            elif d == "reduce":
+                others = [q for q in case["parents"] if q != p]
+                if not others:
+                    return skip("one parent only")
+                obj = cpd.reduce([(pn[others[0]], gen.lab(labels[others[0]][0]))], inplace=False)
+            elif d == "normalize":
+                obj = cpd.normalize(inplace=False)
+            else:
+                import warnings
+                with warnings.catch_warnings():
+                    warnings.simplefilter("ignore")
+                    cpd.reorder_parents([pn[q] for q in reversed(case["parents"])], inplace=False)
+                obj = cpd.copy()
+            e = case["edit"]
+            if e == "marginalize":
+                obj.marginalize([pn[p]], inplace=True)
+            elif e == "reduce":
+                obj.reduce([(pn[p], gen.lab(labels[p][0]))], inplace=True)
+            elif e == "maximize":
+                if isinstance(obj, DiscreteFactor) and not hasattr(obj, "variable"):
+                    obj.maximize([pn[p]], inplace=True)
+                else:
+                    obj.marginalize([pn[p]], inplace=True)
+            elif e == "scale":
+                obj.values *= 3.0
+            elif e == "set_value":
+                idx = tuple(0 for _ in obj.values.shape)
+                obj.values[idx] = 0.123
+            else:
+                other = DiscreteFactor(["zz_new"], [2], [0.5, 2.0])
+                if hasattr(obj, "variable"):
+                    obj.to_factor().product(other, inplace=True)
+                else:
+                    obj.product(other, inplace=True)
+    except Exception as ex:
+        return fail(f"{case['derive']} then in-place {case['edit']} raised {type(ex).__name__}: {ex}", **tags)
+    if snapshot(cpd) != s0:
+        return fail(f"editing the result of {case['derive']} in place ({case['edit']}) changed the CPD it came from", **tags)
+    err = compare_factor(cpd, m0["f"], names, card, labels)
+    if err:
+        return fail(f"after editing the result of {case['derive']} in place the CPD reads differently by state name: {err}", **tags)
+    return ok(nontrivial=True, **tags)
+
+
 # ----------------------------------------------------------------------------- is_valid_cpd
 def gen_valid(rng, tier):
     case = rand_cpd_case(rng)
@@ -335,11 +413,37 @@ def run_check(case, drv):
     bn = BayesianNetwork()
     bn.add_nodes_from(pn)
     bn.add_edges_from([(pn[u], pn[v]) for u, v in case["edges"]])
-    for v, c in cp.items():
-        sn = {pn[x]: [gen.lab(l) for l in decl_lab[v][x]] for x in [v] + c["parents"]}
-        bn.add_cpds(TabularCPD(pn[v], decl_card[v][v], [[float(Fraction(x)) for x in row] for row in c["table"]],
-                               evidence=[pn[p] for p in c["parents"]] or None,
-                               evidence_card=[decl_card[v][p] for p in c["parents"]] or None, state_names=sn))
+    history = applied in ("colsum_out", "parents_drop") and int(case["r"] * 1000) % 3 == 0
+    if history:
+        # the VALID network is validated (and queried) first; then the CPD object that is attached to the model is edited in place into
+        # the faulty one; validation must look at the model as it is now
+        orig = {c["child"]: c for c in case["cpds"]}
+        for v, c in orig.items():
+            sn = {pn[x]: [gen.lab(l) for l in labels[x]] for x in [v] + c["parents"]}
+            bn.add_cpds(TabularCPD(pn[v], card[v], [[float(Fraction(x)) for x in row] for row in c["table"]],
+                                   evidence=[pn[p] for p in c["parents"]] or None,
+                                   evidence_card=[card[p] for p in c["parents"]] or None, state_names=sn))
+        try:
+            first = bool(bn.check_model())
+        except ValueError as e:
+            return fail(f"check_model rejects the unmodified network: {e}", mut="history", n=n)
+        if not first:
+            return fail("check_model returned False for the unmodified network", mut="history", n=n)
+        obj = bn.get_cpds(pn[tgt])
+        if applied == "parents_drop":
+            dropped = [x for x in orig[tgt]["parents"] if x not in cp[tgt]["parents"]][0]
+            obj.marginalize([pn[dropped]], inplace=True)
+        else:
+            newt = [[float(Fraction(x)) for x in row] for row in cp[tgt]["table"]]
+            import numpy as np
+            arr = np.asarray(newt, dtype=float).reshape(obj.values.shape)
+            obj.values[...] = arr
+    else:
+        for v, c in cp.items():
+            sn = {pn[x]: [gen.lab(l) for l in decl_lab[v][x]] for x in [v] + c["parents"]}
+            bn.add_cpds(TabularCPD(pn[v], decl_card[v][v], [[float(Fraction(x)) for x in row] for row in c["table"]],
+                                   evidence=[pn[p] for p in c["parents"]] or None,
+                                   evidence_card=[decl_card[v][p] for p in c["parents"]] or None, state_names=sn))
     try:
         impl = bool(bn.check_model())
     except ValueError:
@@ -360,7 +464,7 @@ def run_check(case, drv):
             f, labs = None, []
         nodes.append({"node": v, "gparents": graph_par[v], "cpd": f, "labels": labs})
     mv = drv.call("check_model", nodes=nodes, tol=rs(t))
-    tags = dict(mut=applied, n=n)
+    tags = dict(mut=applied, n=n, history=history)
     if impl != (mv == "ok"):
         return fail(f"check_model: impl {'accepts' if impl else 'rejects'}, model says {mv} (mutation {applied})", **tags)
     if impl:
@@ -379,6 +483,7 @@ def run_check(case, drv):
 STREAMS = [
     Stream("build", gen_build, run_build, quick=900, thorough=10000),
     Stream("transform", gen_transform, run_transform, quick=1500, thorough=20000),
+    Stream("alias", gen_alias, run_alias, quick=500, thorough=5000),
     Stream("valid", gen_valid, run_valid, quick=600, thorough=6000),
     Stream("check_model", gen_check, run_check, quick=900, thorough=10000),
 ]
